@@ -253,7 +253,6 @@ package logqlengine
 //@ scope aggregated_labels.go
 
 //@ ghost func digestStream(d *xxhash.Digest) string
-//@ ghost func lenPrefix(n int) string
 
 //@ spec func inLabels(labels []logql.Label, name string) bool {
 //@   return exists(0, len(labels), func(j int) bool { return string(labels[j]) == name })
@@ -308,4 +307,4 @@ package logqlengine
 // The bytes fed to the hash for one visible (name, value) pair frame both strings: the name is
 // terminated (label names contain no NUL), the value is preceded by its length.
 //@ func (*aggregatedLabels).Key$1
-//@   ensures[framed-pair] digestStream(h) == old(digestStream(h)) + k + "\x00" + lenPrefix(len(v)) + v
+//@   ensures[framed-pair] digestStream(h) == old(digestStream(h)) + k + "\x00" + strconv.Itoa(len(v)) + "\x00" + v
